@@ -3,6 +3,7 @@ package verifsim
 import (
 	"bytes"
 	"encoding/json"
+	"errors"
 	"fmt"
 	"io"
 	"net/url"
@@ -47,9 +48,9 @@ func apisimExec(r *Run) {
 	}
 	// a third of the C02 runs sit on the wrapper SQL driver: a header can then be stored BETWEEN two reads of one
 	// verify request (c02Concurrent)
-	if (r.Prop == "C02" || r.Prop == "C04") && r.T.Chance(1, 3, "via-sql-wrapper") {
+	if (r.Prop == "C02" || r.Prop == "C04" || r.Prop == "C13") && r.T.Chance(1, 3, "via-sql-wrapper") {
 		a.viaSim = true
-		defer func() { sqlQueryHook = nil }()
+		defer func() { sqlQueryHook, sqlFail = nil, nil }()
 		w.OpenSim()
 	} else {
 		w.Open()
@@ -1096,8 +1097,47 @@ func (a *apiSim) c13() {
 		}
 		chStop := chainhash.Hash(stop)
 		var got []wire.BlockHeader
+		// storage can fail one of the reads behind an answer (SQLITE_BUSY while the sync engine writes): the answer is
+		// then the right one or none at all - never headers beyond the stop hash or from elsewhere (runs on the wrapper
+		// driver; not for the two inputs whose handling is a recorded finding)
+		faultAt, seenQ, firedQ := -1, 0, false
+		if a.viaSim && len(locator) > 0 && stop != m.Genesis.Hash && t.Chance(1, 4, "getheaders-read-fault") {
+			faultAt = t.Draw(3, "getheaders-fault-at")
+			sqlFail = func(op, q string) error {
+				if op != "query" {
+					return nil
+				}
+				k := seenQ
+				seenQ++
+				if k == faultAt {
+					firedQ = true
+					r.Fault("getheaders-read-error")
+					return errors.New("simnet: database is locked (SQLITE_BUSY)")
+				}
+				return nil
+			}
+		}
 		if pan, pv, st := guard(func() { got = w.Svc.Headers.LocateHeaders(chLoc, &chStop) }); pan {
+			sqlFail = nil
 			r.Fail("C13", "panic", "LocateHeaders@"+panicSite(st), "LocateHeaders panicked: %v", pv)
+		}
+		sqlFail = nil
+		if firedQ {
+			ok := len(got) == 0
+			if !ok && len(got) == len(exp) {
+				ok = true
+				for i := range exp {
+					if bh := got[i].BlockHash(); bh.String() != exp[i].HashStr() {
+						ok = false
+					}
+				}
+			}
+			r.Logf("getheaders with a failing read (query %d of the request) -> %d headers (model %d)", faultAt, len(got), len(exp))
+			if !ok {
+				r.Fail("C13", "getheaders", fmt.Sprintf("after-read-error|query=%d|locator=%s,stop=%s", faultAt, locShape(m, locator), stopShape(m, stop, start)),
+					"the storage read %d behind a getheaders answer failed; the service answered with %d headers, neither nothing nor the %d headers the store implies (start height %d, tip %d)", faultAt, len(got), len(exp), start, len(lc)-1)
+			}
+			continue
 		}
 		var got2 []*wire.BlockHeader
 		var err2 error
